@@ -275,17 +275,6 @@ func c09Run(raw json.RawMessage) (res Result, err error) {
 			}
 		}
 	}
-	// decoded times must also follow tick order inside a slot (the reader returns tick order)
-	for _, f := range st.Files {
-		for _, sl := range f.Slots {
-			for i := 1; i < len(sl.Recs); i++ {
-				a, b := sl.Recs[i-1], sl.Recs[i]
-				if time.Unix(b.Sec, int64(b.Ns)).Before(time.Unix(a.Sec, int64(a.Ns))) {
-					f1 = true
-				}
-			}
-		}
-	}
 	f4 := false
 	for _, f := range st.Files {
 		var total, cursor int64
